@@ -21,13 +21,13 @@ prop("C01", True,
      "Not decided: the sweep-line clipper itself (external numerical algorithm), hence the point-set and area identities for overlapping operands. Two open known findings (R5: XOR of disjoint/empty operands is empty in polyclip-go v1.1.0). Model sizes: 1–2 members, 1–2 rings.",
      None)
 prop("C02", True,
-     ME + "; the two segment predicates and the per-vertex classifier are replaced by oracles whose answers are enumerated; exhaustive abstract interpretation over orderings for the box pre-filter and for the comparison-only prefixes of the two segment predicates",
-     "(R1) with every oracle answer false each segment predicate is asked about every segment of every ring exactly once, the closing pair included; (R2) a single 'on the segment' answer gives OnEdge at once, crossings toggle Inside/Outside summed over rings and member polygons; (R3) the per-ring pre-filter is the closed box test of the ring's own bounds (exhaustive over orderings); (R4) the vertex-wise receivers consult every vertex/member and return Outside exactly when one is classified Outside; (R5) every answer the two segment predicates give by comparisons alone equals the order-level geometric truth for all orderings of {p,a,b} per axis.",
+     ME + "; the two segment predicates and the per-vertex classifier are replaced by oracles whose answers are enumerated; exhaustive abstract interpretation over orderings for the comparison-only prefixes of the two segment predicates",
+     "(R1) with every oracle answer false each segment predicate is asked about every segment of every ring exactly once, the closing pair included; (R2) a single 'on the segment' answer gives OnEdge at once, crossings toggle Inside/Outside summed over rings and member polygons; (R3) a ring is never skipped when the point is inside or on its box: the same runs on rings whose box the point only touches, or enters only thanks to the last vertex of an unclosed ring; (R4) the vertex-wise receivers consult every vertex/member and return Outside exactly when one is classified Outside; (R5) every answer the two segment predicates give by comparisons alone equals the order-level geometric truth for all orderings of {p,a,b} per axis.",
      "Not decided: the final slope comparisons of the two segment predicates (division, rounding), i.e. the classification of points that survive the order-level exits. Thin by nature.",
      None)
 prop("C03", True,
-     ME + " with symbolic arithmetic: results are normal-form polynomials / rational functions / sums of square roots in the vertex coordinates and are compared with the specification as identities; branches on computed values follow a stated reference figure; path-sensitive comparison-fact dataflow for the clamped projection; an axis (X/Y) type rule on comparisons",
-     "(R1) Polygon.Area and op.Area equal the shoelace area of shells minus holes as a polynomial identity for a triangle, a pentagon and a shell with one and two holes under every per-ring reversal, start vertex and closed/unclosed spelling; Length is the sum of segment lengths and Distance the least point-to-segment distance over all consecutive pairs; (R2) Polygon.Centroid, op.Centroid and MultiPolygon.Centroid equal the area-weighted mean of the ring centroids as rational functions under the reversals and rotations the property names; (R3) the Multi* measures sum / minimise over every member whatever its winding; (R4) the point-to-segment projection parameter is in [0,1] at the foot point and its divisor is non-zero on every path; (R5) no comparison in geom/op relates an X to a Y ordinate.",
+     ME + " with symbolic arithmetic: results are normal-form polynomials / rational functions / sums of square roots in the vertex coordinates and are compared with the specification as identities; branches on computed values follow a stated reference figure or position; an axis (X/Y) type rule on comparisons",
+     "(R1) Polygon.Area and op.Area equal the shoelace area of shells minus holes as a polynomial identity for a triangle, a pentagon and a shell with one and two holes under every per-ring reversal, start vertex and closed/unclosed spelling; Length is the sum of segment lengths and the square of Distance the least squared point-to-segment distance over all consecutive pairs; (R2) Polygon.Centroid, op.Centroid and MultiPolygon.Centroid equal the area-weighted mean of the ring centroids as rational functions under the reversals and rotations the property names; (R3) the Multi* measures sum / minimise over every member whatever its winding; (R4) every (Point,Point,Point) float64 function of geom and op that behaves like a distance is evaluated in 14 positions of the point relative to the segment (behind the start, beyond the end, beside the interior, on both perpendiculars through the ends, on an end, on the segment, a degenerate segment, a reversed and a vertical one): its square equals the squared distance to the nearest point of the segment as a rational term, and 0/0 is never formed; (R5) no comparison in geom/op relates an X to a Y ordinate.",
      "Not decided: floating-point rounding (the identities are over the reals), Buffer's trigonometry, figures whose branch decisions differ from the reference figure (one shell with up to two holes, two members), numerical agreement beyond identity of the formulas.",
      None)
 prop("C04", True,
@@ -36,9 +36,9 @@ prop("C04", True,
      "Not decided: NaN and -0 behaviour of math.Min/Max; geometries larger than the models (up to 3 members per level, runs of empty members).",
      None)
 prop("C05", True,
-     ME + " with encoding/binary replaced by a typed stream; SSA provenance analysis for result freshness; AST rule for the hex wrapper",
-     "(R1) for model geometries of all seven types and both byte orders the stream wkb.Write produces is the OGC layout (order byte, code, counts = members that follow, members complete WKB of their own, every multi-byte item in the requested order); (R2) Read on each reference stream returns the geometry and consumes the stream exactly, members in the other byte order decode correctly, point arrays longer than the allocation chunk come back complete; (R3) truncated messages, unknown codes, bad flags and members of the wrong kind are rejected; (R4) hex is EncodeToString/DecodeString around exactly wkb.Encode/Decode; (R5) the returned bytes are freshly allocated.",
-     "Not decided: encoding/binary's own behaviour (trusted: bit-exact float64 transfer); hence NaN payload preservation follows from that trust. Model sizes: up to 3 members per level, point arrays of 1024/1025/2049.",
+     ME + " with encoding/binary replaced by a typed stream and the standard hexadecimal functions described; SSA provenance analysis for result freshness",
+     "(R1) for model geometries of all seven types and both byte orders the stream wkb.Write produces is the OGC layout (order byte, code, counts = members that follow, members complete WKB of their own, every multi-byte item in the requested order); (R2) Read on each reference stream returns the geometry and consumes the stream exactly, members in the other byte order decode correctly, point arrays longer than the allocation chunk come back complete; (R3) truncated messages, unknown codes, bad flags and members of the wrong kind are rejected; (R4) hex.Encode returns the lower-case hexadecimal text of exactly wkb.Encode's stream for the same geometry and byte order and an error where wkb.Encode gives one; hex.Decode returns what wkb.Decode returns on the bytes DecodeString gives, and an error — never a panic — for a text that is not hexadecimal; (R5) the returned bytes are freshly allocated.",
+     "Not decided: encoding/binary's and encoding/hex's own behaviour (trusted: bit-exact float64 transfer, lower-case digits); hence NaN payload preservation follows from that trust. Model sizes: up to 3 members per level, point arrays of 1024/1025/2049.",
      None)
 prop("C06", True,
      ME + " with encoding/json replaced by a tree model; SSA provenance analysis for result freshness; AST rule excluding custom JSON hooks",
@@ -51,33 +51,33 @@ prop("C07", True,
      "Not decided: total memory as a multiple of input length beyond 'no allocation sized by an unchecked count'; encoding/json's and encoding/hex's own behaviour.",
      None)
 prop("C08", True,
-     "SSA backward data-dependence of closure results (through phis, allocs, field loads and repository helpers), registry table extraction, stage/role classification of the NewTransform pipeline (following helpers), scenario replay of the cone-sign variable",
-     "(R1) in all forward/inverse closures of the registered projections every success return yields coordinates that depend on the inputs; (R2) the NewTransform pipeline is mirrored around the datum shift; (R3) all eight projections are registered with constructors yielding both closures; (R4) in each inverse the longitude depends on Long0 and the latitude does not; (R5) in the conic family the polar angle is taken of coordinates multiplied by ±1 following the sign of the cone constant. Necessary for inverse(forward(p)) = p.",
+     ME + " with symbolic parameters and positions: the NewTransform pipeline is interpreted with the projection members and the datum shift left as named operations; the inverse members of the registered projections are interpreted for northern and southern standard parallels; scalar helpers are classified by behaviour; SSA backward data-dependence of closure results; registry table extraction",
+     "(R1) in all forward/inverse closures of the registered projections every success return yields coordinates that depend on the inputs; (R2) for eleven pairs of references (units, prime meridians, axis orders, geographic and projected, a datum shift on one or both sides) the term NewTransform computes for (x, y) equals: source unit, source inverse member, source prime meridian, datum shift (through WGS84 in two legs where that route is taken), destination prime meridian, destination forward member, destination unit, axis flips on their own side; (R3) all eight projections are registered with constructors yielding both members; (R4) in each inverse the longitude depends on Long0 and the latitude does not; (R5) in every projection whose longitude is a polar angle scaled by a quantity that follows the standard parallels, that angle is taken of offsets that change sign together with the cone constant; (R6) every angle-normalising helper reachable from the constructors is the identity on (−π, π), has period 2π and is odd. Necessary for inverse(forward(p)) = p.",
      "Not decided: the projection formulas themselves (three independently seeded formula changes — an LCC scale term, a transverse-Mercator sign, an Albers cone constant — are not reported), convergence of the iterative solvers, tolerance figures.",
      None)
 prop("C09", True,
-     "table agreement between Go composite literals (constants folded by go/types) and the bundled proj4js 2.3.12 sources read by a small JS-subset reader; typed-constant rule for integer division in float context; " + ME + " of proj.Parse with a symbolic parameter value for the angle units; SSA operand-closure and signed sum-of-products extraction for the Helmert shift; a two-point e/e² type system over call sites; call-order rule for the datum shifts",
-     "(R1, complete for this clause) all ellipsoids, datums, prime meridians, units and named numeric constants equal the bundled proj4js source as float64; (R2) no integer-constant quotient is used as a float coefficient; (R3) every PROJ.4 key that proj4js multiplies by D2R stores P × deg2rad once and no other numeric key does, incl. named prime meridians; (R4) no 2-D Transformer hop between two datum shifts; (R6) the 3/7-parameter datum shifts are simultaneous, antisymmetric and inverse to each other in form; (R7) eccentricity typing e / e²; (R8) the NewTransform pipeline applies each reference's parameters once, mirrored.",
-     "Not decided: agreement of the projection formulas with proj4js (only their parameters and tables); one open known finding (R4: height dropped between two datum shifts, 0.93 mm).",
+     "table agreement between Go composite literals (constants folded by go/types) and the bundled proj4js 2.3.12 sources read by a small JS-subset reader; typed-constant rule for integer division in float context; " + ME + " of proj.Parse with symbolic parameter values (angle units, datum classification), of the geocentric shift functions (found by behaviour) against the Helmert formulas as rational terms, of the whole datum shift with the geodetic↔geocentric conversions as named operations, and of the NewTransform pipeline; a two-point e/e² type system over call sites",
+     "(R1, complete for this clause) all ellipsoids, datums, prime meridians, units and named numeric constants equal the bundled proj4js source as float64; (R2) no integer-constant quotient is used as a float coefficient; (R3) every PROJ.4 key that proj4js multiplies by D2R stores P × deg2rad once and no other numeric key does, incl. named prime meridians; (R4) the height produced by one datum shift reaches the next; (R6) the 3- and 7-parameter shifts to and from WGS84 equal the Helmert formulas in the stored parameters, and between a 7-parameter and a 3-parameter datum the conversion back to geodetic coordinates is given exactly from₃(to₇(G)) of the source's geocentric position G, all three ordinates travelling through; (R7) eccentricity typing e / e²; (R8) the pipeline applies each reference's unit, prime meridian and member once, mirrored around the shift (eleven pairs, shared with C08.R2); (R9) a +towgs84 list is classified and converted (arc seconds, ppm) as proj4js does.",
+     "Not decided: agreement of the projection formulas with proj4js (only their parameters, tables and the wiring around them); one open known finding (R4: height dropped between two datum shifts, 0.93 mm).",
      None)
 prop("C10", True,
-     ME + " of the eight Transform methods with a host transformer (incl. failure at the k-th vertex) and of the axis adjustment; SSA effect analysis of the transformer closures (captured-variable stores, idempotence of per-call stores, save/restore); path-sensitive error-before-use dataflow",
-     "(R1) no per-call state survives in a Transformer: closures never assign captured variables or store argument-dependent values outside themselves, and every store the constructors/helpers make to a reference is a guarded lazy initialisation, a normalising overwrite from stable values or a save/restore; (R2) the axis adjustment never indexes beyond a 2-element coordinate slice; (R3) a member result returned with an error is never used before the error is tested; (R4) Transform with nil returns the receiver, otherwise a fresh value of the receiver's shape whose i-th vertex is T(i-th vertex), T called once per vertex in order, the receiver untouched, a failure at any vertex reported.",
+     ME + " of the eight Transform methods with a host transformer (incl. failure at the k-th vertex), of the axis adjustment, of the NewTransform pipeline and of the members of every registered projection with symbolic parameters (terms before and after an unrelated call, reference dumps before and after); SSA effect analysis of the transformer closures (captured-variable stores); path-sensitive error-before-use dataflow",
+     "(R1) no per-call state survives in a Transformer: closures never assign captured variables or store argument-dependent values outside themselves; for eleven reference pairs the same position gives the same term after the transformer was used for another position and neither reference changes; for every registered projection, members rebuilt and reused give the same terms and leave the reference as the first construction left it; a datum shift leaves both datums as they were; (R2) the axis adjustment never indexes beyond a 2-element coordinate slice; (R3) a member result returned with an error is never used before the error is tested; (R4) Transform with nil returns the receiver, otherwise a fresh value of the receiver's shape whose i-th vertex is T(i-th vertex), T called once per vertex in order, the receiver untouched, a failure at any vertex reported.",
      "Not decided: numerical equality with a fresh transformer (follows from 'no state survives' assuming deterministic float arithmetic).",
      None)
 prop("C11", True,
-     ME + " of NewTree/Insert/Delete/SearchIntersect/Size/Depth over histories of boxes with rank coordinates: envelopes are computed exactly by the repository code, the comparisons of the insertion heuristics (areas, enlargements) are symbolic and are resolved once by the geometry and several times by arbitrary consistent orders; exhaustive abstract interpretation of the box relations over all weak orderings; path-sensitive AST dataflow for size accounting and overflow tests",
-     "After every operation of three histories (fill, scattered drain to empty and refill, interleaved deletes of absent objects and duplicates, 36 boxes to height three) under several branching parameters and heuristic resolutions: (R1) leaves at one depth = Depth(), no dangling child, no panic; (R2) parent links follow entries; (R3) every entry's box is the exact envelope of its subtree; (R4) Size() and the stored multiset equal the history's, Delete true/false as specified and without effect when false (plus the every-path rule for size++/--); (R5) fan-out ≤ MaxChildren (plus the every-path overflow test); (R6) SearchIntersect equals a scan for disjoint, touching, overlapping, degenerate and all-covering queries, and every box relation of the package is closed intersection / containment / join in all orderings.",
+     ME + " of NewTree/Insert/Delete/SearchIntersect/Size/Depth over histories of boxes with rank coordinates: envelopes are computed exactly by the repository code, the comparisons of the insertion heuristics (areas, enlargements) are symbolic and are resolved once by the geometry and several times by arbitrary consistent orders; exhaustive abstract interpretation of the box relations over all weak orderings",
+     "After every operation of three histories (fill, scattered drain to empty and refill, interleaved deletes of absent objects and duplicates, 36 boxes to height three) under several branching parameters and heuristic resolutions: (R1) leaves at one depth = Depth(), no dangling child, no panic; (R2) parent links follow entries; (R3) every entry's box is the exact envelope of its subtree; (R4) Size() and the stored multiset equal the history's, Delete true/false as specified and without effect when false, and the count does not depend on how large it already is (a counter preset to 2^40); (R5) fan-out ≤ MaxChildren; (R6) SearchIntersect equals a scan for disjoint, touching, overlapping, degenerate and all-covering queries, and every box relation of the package is closed intersection / containment / join in all orderings.",
      "Not decided: histories longer or differently shaped than the three modelled; MinChildren fill (not part of the property). The model run found the drain-and-refill panic repaired in a139d91 (fixed entry in known_findings.json).",
      None)
 prop("C12", True,
-     ME + " of NearestNeighbor/NearestNeighbors on hand-built trees with the two point-to-box bounds replaced by tables, over every weak ordering of the object distances and every admissible choice of inner bounds; the bound functions themselves compared with MINDIST² / MINMAXDIST² as polynomials in symbolic coordinates; squared/linear unit dataflow",
-     "(R1) NearestNeighbors(k,p) returns k slots, the first min(k,n) holding distinct stored objects at the k smallest distances in non-decreasing order, for k ∈ {1,2,n,n+1}; (R2) NearestNeighbor returns the object at the least distance; (R3) with ties it returns one of the nearest (no strict exclusion by MINMAXDIST); (R4) no comparison mixes squared and linear distances; (R5) premise: exact envelopes and parent links after every Insert/Delete (C11 model); (R6) each point-to-box function equals MINDIST² or MINMAXDIST² (Roussopoulos et al., def. 4) for all 16 placements of the point.",
-     "Not decided: trees deeper than two inner levels or with more than five objects in the quick tier (the thorough tier adds a four-leaf tree).",
+     ME + " of NearestNeighbor/NearestNeighbors on hand-built trees with the two point-to-box bounds replaced by tables, over every weak ordering of the object distances and every admissible choice of inner bounds; the bound functions themselves compared with MINDIST² / MINMAXDIST² as polynomials in symbolic coordinates; both queries interpreted on a tree built through Insert with the package's own bound arithmetic at three scales of the coordinates",
+     "(R1) NearestNeighbors(k,p) returns k slots, the first min(k,n) holding distinct stored objects at the k smallest distances in non-decreasing order, for k ∈ {1,2,n,n+1}; (R2) NearestNeighbor returns the object at the least distance; (R3) with ties it returns one of the nearest (no strict exclusion by MINMAXDIST); (R4) distances are compared like with like, observed as scale invariance: on a 13-object tree both queries return what a linear scan finds for 36 query points at grid spacings 1/64, 1 and 64 (a squared distance compared with a linear one orders differently below and above 1); (R5) premise: exact envelopes and parent links after every Insert/Delete (C11 model); (R6) each point-to-box function equals MINDIST² or MINMAXDIST² (Roussopoulos et al., def. 4) for all 16 placements of the point.",
+     "Not decided: trees deeper than two inner levels or with more than five objects under the tabled bounds (the thorough tier adds a four-leaf tree); R4's expected object is computed from the same coordinates (an identity of objects, not of numbers).",
      None)
 prop("C13", True,
-     ME + " of LineString.Simplify and Polygon.Simplify with the point-to-segment distance and the simplicity test replaced by oracles, every combination of answers to the questions actually asked enumerated depth-first; comparison-fact dataflow for the clamped projection; AST rules for the member methods and the exactness of the crossing test",
-     "On curves of 0–5 vertices (thorough 6; up to 7 with the simplicity oracle fixed) and curves with a repeated vertex: (R1) every run returns, none panics; (R2) the result is a fresh order-preserving subsequence that starts with the first and ends with the last vertex, the input unchanged; (R3) every dropped vertex's distance to the replacing segment was asked and answered within tolerance, and every replacing segment was tested against the kept output, the rest of the curve and the other curves; (R4) Multi* members are simplified independently into a fresh result; (R5) the deviation is the distance to the segment (clamped, no 0/0); (R6) the crossing test behind the simplicity oracle uses tolerance 0.",
+     ME + " of the Simplify methods with the point-to-segment distance and the simplicity test replaced by oracles, every combination of answers to the questions actually asked enumerated depth-first (constant answers for the multi-geometries); the point-to-segment distance itself evaluated symbolically; AST rule for the exactness of the crossing test",
+     "On curves of 0–5 vertices (thorough 6; up to 7 with the simplicity oracle fixed) and curves with a repeated vertex: (R1) every run returns, none panics; (R2) the result is a fresh order-preserving subsequence that starts with the first and ends with the last vertex, the input unchanged; (R3) every dropped vertex's distance to the replacing segment was asked, compared with the tolerance itself (or both squared) and answered within it, and every replacing segment was tested against the kept output, the rest of the curve and the other curves; (R4) MultiLineString.Simplify and MultiPolygon.Simplify return at index i what the single-geometry method returns for member i alone, over the full range, receiver unchanged and unshared; (R5) the deviation is the distance to the segment in all 14 relative positions incl. a degenerate segment (shared with C03.R4); (R6) the crossing test behind the simplicity oracle uses tolerance 0.",
      "One open known finding (R3: the segment reaching the last vertex is appended untested; a simple 6-vertex line becomes self-intersecting). Not decided: the simplicity test's own geometry beyond R6.",
      None)
 prop("C14", True,
@@ -86,14 +86,14 @@ prop("C14", True,
      "Not decided: everything the external clipper computes (that pieces lie on L and inside P, total length, emptiness).",
      None)
 prop("C15", True,
-     ME + " of Similar on model pairs for each of the eight types in both argument orders; AST rule for the scalar tolerance test",
-     "(R1) Similar is true for a perturbed copy, also with members reordered and closed rings rotated; false when a vertex is displaced, a member or vertex added or removed, a line reversed, or a duplicated member stands against a different one; and symmetric in all these cases; (R2) false for every ordered pair of different geometry types; (R3) the scalar test is |a−b| < tol, strict, bounding both signs.",
+     ME + " of Similar on model pairs for each of the eight types in both argument orders, coordinates and tolerance symbolic, the package's own tolerance arithmetic deciding every comparison under a reference valuation (vertices 16 apart, perturbation 1, displacement 8, tolerance 1.5); Point.Similar evaluated under eleven valuations that separate |a−b| < tol from its neighbours",
+     "(R1) Similar is true for a perturbed copy, also with members reordered and closed rings rotated; false when a vertex is displaced, a member or vertex added or removed, a line reversed, or a duplicated member stands against a different one; and symmetric in all these cases; (R2) false for every ordered pair of different geometry types; (R3) on two points differing in one coordinate (each axis) the tolerance test is |a−b| < tol: strict (a difference of exactly the tolerance and a zero tolerance on equal values are rejected) and bounding both signs of the difference.",
      "Not decided: pairs larger than the models (up to 3 members / 5 vertices), near-tolerance ambiguities between several members.",
      None)
 prop("C16", True,
-     ME + " of the shapefile package at the go-shp boundary: reflect is described by go/types (struct fields, tags, kinds, assignability), go-shp by a file model (a record is read back as the file's shape type with the counts it declares; attributes come back as NUL-padded text), strings/bytes/strconv helpers are evaluated on the concrete texts; path rules for the row cursor and the column lookup",
-     "For both NewEncoder/Encode/DecodeRow and NewEncoderFromFields/EncodeFields/DecodeRowFields: (R1) each supported geometry type is written into a file of the matching shape type and comes back as the expected geom type; (R2) geometries of 1–6 parts with 0–7 vertices (empty parts included) come back part by part, vertices in order, declared counts consistent; (R3) rings come back closed exactly when needed, boxes as five-vertex rectangles; (R4) int/float64/string fields become columns of the documented widths and come back equal (50-byte strings, NUL padding); (R5) columns are matched by lower-cased tag, else name, case-insensitively, unmatched fields untouched; (R6) records come back in order, each with its own row's attributes, then end of file and a nil Error().",
-     "Not decided: go-shp's own file I/O and dBase number formatting (modelled, not analysed), float text round trip to 10 decimals beyond the column widths, null shapes.",
+     ME + " of the shapefile package at the go-shp boundary: reflect is described by go/types (struct fields, tags, kinds, assignability), go-shp by a file model (a record is read back as the file's shape type with the counts it declares; attributes come back as NUL-padded text), strings/bytes/strconv helpers are evaluated on the concrete texts",
+     "For both NewEncoder/Encode/DecodeRow and NewEncoderFromFields/EncodeFields/DecodeRowFields: (R1) each supported geometry type is written into a file of the matching shape type and comes back as the expected geom type; (R2) geometries of 1–6 parts with 0–7 vertices (empty parts included) come back part by part, vertices in order, declared counts consistent; (R3) rings come back closed exactly when needed, boxes as five-vertex rectangles; (R4) int/float64/string fields become columns of the documented widths and come back equal (50-byte strings, NUL padding); (R5) columns are matched by tag, else name, case-insensitively, unmatched fields untouched; (R6) records come back in order, each with its own row's attributes — also after a record without a shape and after a geometry-only read — then end of file and a nil Error().",
+     "Not decided: go-shp's own file I/O and dBase number formatting (modelled, not analysed), float text round trip to 10 decimals beyond the column widths.",
      None)
 prop("C17", True,
      ME + " of wkt.Encode with strconv's float formatting replaced by coordinate tokens; the emitted text is parsed by an OGC WKT recogniser held in the checker; SSA provenance analysis for result freshness",
@@ -101,18 +101,18 @@ prop("C17", True,
      "Not decided: strconv's contract (trusted).",
      None)
 prop("C18", True,
-     "lockset analysis (path-sensitive must-hold locksets with defer, field→mutex table derived from the struct), lock-order graph over the package call graph, flow facts for the pass barrier and the pass flag (captured variable or mutex-guarded field reached through methods), reporter chains for dependency registration, fixpoint-completeness rule from the KeepFuncs' read set, sibling summary comparison",
-     "For all schedules of the worker pool (the quantifier tests cannot reach): (R1) every access to the six guarded maps in code reachable from the errgroup workers (incl. the KeepFunc closures) holds the map's mutex in the right mode, the another-pass flag is written only under its mutex and untouched by the spawner between Go and Wait; (R2) every acquire is released on all exits and the acquisition-order graph incl. callee acquisitions is acyclic; (R3) all 8 dependency registrations set the another-pass result and no caller discards it; (R4) every concurrent store into a set that a KeepFunc consults must request another pass (fixpoint completeness); (R5) process* and *NoCopy twins have the same guard→effect summary.",
-     "Not decided: minimality of the result, equality with a sequential model, termination of the pass loop. Three open known findings under R4 (KeepBounds reads Nodes/Ways/Relations while workers fill them; schedule replayed in demos/osm_whitebox).",
+     "lockset analysis (path-sensitive must-hold locksets with defer, field→mutex table derived from the struct), lock-order graph over the package call graph, flow facts for the pass barrier and the pass flag (captured variable or mutex-guarded field reached through methods; one pass per call with the loop in the caller), request flow of the per-object results through assignments, ||, helpers and loops, fixpoint-completeness rule from the KeepFuncs' read set; " + ME + " of the sequential semantics: Filter, Check and the per-object functions on model documents with the package's own keep functions, maps walked in both orders",
+     "For all schedules of the worker pool (the quantifier tests cannot reach): (R1) every access to the six guarded maps in code reachable from the errgroup workers (incl. the KeepFunc closures) holds the map's mutex in the right mode, the another-pass flag is written only under its mutex and untouched by the spawner between Go and Wait; (R2) every acquire is released on all exits and the acquisition-order graph incl. callee acquisitions is acyclic; (R3) no caller discards the another-pass result of a per-object function; (R4) every concurrent store into a set that a KeepFunc consults must request another pass (fixpoint completeness); (R6) workers are joined before the flag is read or reset, every object reaches its function on its type alone. For the values computed (R7): on eight documents (shared nodes, relations of ways, nodes and relations, a chain three deep, a cycle, a dangling reference) Filter returns exactly the selected objects and what they reference, transitively, whichever way maps are walked, idempotently, accepted by Check; the per-object functions driven through the pass protocol in file, reverse and interleaved order reach the same least closed set; with KeepBounds in file order the least set closed under selection-by-what-is-stored and references.",
+     "Not decided: interleavings inside one per-object call (what R1 and R4 are about, structurally), termination of the pass loop on large inputs. Three open known findings under R4 (KeepBounds reads Nodes/Ways/Relations while workers fill them; schedule replayed in demos/osm_whitebox).",
      None)
 prop("C19", True,
-     "type-level conformance check (go/types.Implements of the AStar graph argument against gonum's path.Weighted), max-accumulator shape rule on every store of the heuristic's divisor, table/loop rules for weights and totals, pairing rule for adjacency stores",
-     "(R1) the static type of the graph passed to gonum path.AStar implements path.Weighted — the optional interface AStar asserts before silently falling back to unit costs (near-misses are reported with both signatures); (R2) the field the time heuristic divides by is a running maximum of link speeds at every store, and every value the heuristic returns is 0, the straight-line distance (Distance option) or that distance over the maximum speed (Time option); (R3) Weight returns the time/length field per option with no numeric default, time = length/speed, the route loop covers every consecutive node pair and sums the appended link's own length and time; (R4) adjacency stores are mirrored.",
-     "Not decided: optimality of gonum's A* itself, node snapping tolerance (newNode / op.PointEquals), behaviour for disconnected nodes.",
+     ME + " of ShortestRoute on a small network built through AddLink with symbolic link lengths and speeds (a reference valuation orders them), gonum's A* transcribed over the interpreted graph and its Weighted interface; type-level conformance check (go/types.Implements of the AStar graph argument against gonum's path.Weighted); purity rule for the query path",
+     "(R1) the static type of the graph passed to gonum path.AStar implements path.Weighted — the optional interface AStar asserts before silently falling back to unit costs; (R2) the heuristic is 0 at the goal and never exceeds the cheapest remaining cost for either option (straight-line distance; that distance over the largest link speed); (R3) the weight of a link is its length or its length over its speed per option, the route is the cheapest one on the model network incl. a winding link that is longer but faster, totals are the sums over the returned links, start and end distances are the snapping distances, disconnected nodes give an empty route; (R4) the graph is symmetric: every link can be travelled both ways at the same cost; (R5) ShortestRoute does not modify the network.",
+     "Not decided: optimality of gonum's own A* (transcribed, not analysed), node snapping over R-trees deeper than a leaf (a change in the shared nearest-neighbour helper is reported by C12), networks larger than the model (six nodes and a second component).",
      None)
 prop("C20", True,
-     ME + " of proj.Parse with symbolic parameters: every number in the PROJ.4 and OGC WKT texts is a placeholder that becomes a symbol, unit conversions and DeriveConstants are carried as normal-form polynomials, branches on parameter values follow a stated reference valuation (an ordinary ellipsoid); the definition registry is read after interpreting the package's init functions; SR.Equal is interpreted on parsed references with reflection described by go/types; path rules for NewTransform's identity shortcut and the parse loops",
-     "(R1) the WKT and PROJ.4 texts of the same system (five WKT projection names, centre/azimuth and central_parallel variants, a geographic system) store every parameter in the same SR field; (R2) angles come out as symbol × deg2rad from either spelling, ratios bare, the WKT false origin as symbol × declared unit whatever the clause order, UNIT reaches ToMeter, SPHEROID[a,1/f] and +a +rf give identical derived constants; (R3) both projection names map to the same constructor; every registered name is a definition equal to a fresh parse of its text or an alias bound to the identical *SR; (R4) NewTransform returns nil exactly where Equal is true; (R5) Equal is true for two parses of one text and false — never a panic — when any float, NaN marker, string, flag, datum-shift value or length, or nested pointer differs; (R6) parameters are applied in textual order; (R7) datum-shift lists keep every value in order.",
+     ME + " of proj.Parse with symbolic parameters: every number in the PROJ.4 and OGC WKT texts is a placeholder that becomes a symbol, unit conversions and DeriveConstants are carried as normal-form polynomials, branches on parameter values follow a stated reference valuation (an ordinary ellipsoid), ranged-over maps are walked in both orders; the definition registry is read after interpreting the package's init functions; SR.Equal is interpreted on parsed references with reflection described by go/types; path rule for NewTransform's identity shortcut",
+     "(R1) the WKT and PROJ.4 texts of the same system (five WKT projection names, centre/azimuth and central_parallel variants, a geographic system) store every parameter in the same SR field; (R2) angles come out as symbol × deg2rad from either spelling, ratios bare, the WKT false origin as symbol × declared unit whatever the clause order, UNIT reaches ToMeter, SPHEROID[a,1/f] and +a +rf give identical derived constants; (R3) both projection names map to the same constructor; every registered name is a definition equal to a fresh parse of its text or an alias bound to the identical *SR; (R4) NewTransform returns nil exactly where Equal is true; (R5) Equal is true for two parses of one text and false — never a panic — when any float, NaN marker, string, flag, datum-shift value or length, or nested pointer differs; (R6) a text with competing keys (k/k_0, units/to_meter, ellps/a, datum/towgs84, in either order) and a projected WKT give identical references whichever way maps are walked; (R7) datum-shift lists of three and seven values (also rotation-free and scale-free) keep every value in order, identically from both spellings.",
      "Not decided: micrometre agreement of the resulting transformers; parameter regions that take other branches than the reference valuation (spheres, rf = 0); datum renaming heuristics.",
      None)
 
@@ -130,7 +130,7 @@ def main():
             "evidence_file": "/verif/evidence/%s.json" % id,
             "replay_cmd_template": "./bin/geomcheck replay {path}",
             "engine": "geomcheck",
-            "level_claimed": {"category": "other", "text": p["text"], "design_ref": "DESIGN.md §10 and Appendix D, " + id},
+            "level_claimed": {"category": "other", "text": p["text"], "design_ref": "DESIGN.md §10, §11 and Appendix D, " + id},
             "level_note": p["note"],
             "technique": "static analysis: " + p["technique"],
         })
@@ -152,7 +152,7 @@ def main():
         }],
         "checks": checks,
         "not_applicable": na,
-        "notes": "All claims are at level 'other': necessary conditions of each property decided statically from /repo's current source — structural rules and model evaluation on bounded abstract inputs; see DESIGN.md §0 and §10. Known findings: /verif/known_findings.json.",
+        "notes": "All claims are at level 'other': necessary conditions of each property decided statically from /repo's current source — structural rules and model evaluation on bounded abstract inputs; see DESIGN.md §0, §10 and §11. Known findings: /verif/known_findings.json.",
     }
     with open(os.path.join(HERE, "MANIFEST.json"), "w") as f:
         json.dump(m, f, indent=1)
